@@ -149,7 +149,7 @@ int ds_run(void (*main_fn)(void *), void *arg);
 int ds_deadlocked(void);    /* last run ended in deadlock */
 int ds_livelocked(void);    /* last run hit max_steps */
 int ds_diverged(void);      /* an explicit schedule entry named a thread that was not enabled */
-int ds_misuse_count(void);  /* unlock by non-owner, join of self / of an unknown id / of a detached or joined thread, wait without the mutex */
+int ds_misuse_count(void);  /* unlock by non-owner, join of an unknown id / of a detached or joined thread (a self-join just returns EDEADLK), wait without the mutex */
 enum { DS_TS_EXITED = 1, DS_TS_JOINED = 2, DS_TS_DETACHED = 4 };
 int ds_thread_state(int ord); /* DS_TS_* bits of thread `ord` after/during a run, -1 if no such thread */
 /* address of the sync object with ordinal `ord` among objects of `type` ('m' 'c' 'o' 'a'); ordinals are given when
